@@ -33,7 +33,12 @@ PodsOfArr(arr) ==
                         uid |-> IF p[12] THEN 1 ELSE 2]]      \* same incarnation as the API's pod: 1; a stale one: 2
 RevsOfArr(arr) == [k \in 1..Len(arr) |-> [name |-> arr[k][1], tmpl |-> arr[k][2], num |-> arr[k][3], created |-> arr[k][4],
                                            owner |-> arr[k][5], marker |-> arr[k][6], sel |-> arr[k][7], rank |-> arr[k][8]]]
-StOf(x) == [api   |-> [set |-> SetOfArr(x.set, 1), pods |-> PodsOfArr(x.pods), revs |-> RevsOfArr(x.revs), pvcs |-> AsSet(x.pvcs), clock |-> 100000],
+\* one pod of a pending watch event (<<>>: no such pod before / after the event)
+PodOfArr1(p) == IF Len(p) = 0 THEN Absent
+                ELSE [present |-> TRUE, phase |-> p[6], ready |-> p[7], term |-> p[8], rev |-> p[9], owner |-> p[5], uid |-> 0]
+OwedOf(x) == QueueDriven /\ \E k \in 1..Len(x.pending) : PodEventEv(PodOfArr1(x.pending[k][1]), PodOfArr1(x.pending[k][2]))
+StOf(x) == [api   |-> [set |-> SetOfArr(x.set, 1), pods |-> PodsOfArr(x.pods), revs |-> RevsOfArr(x.revs), pvcs |-> AsSet(x.pvcs),
+                       owed |-> OwedOf(x), clock |-> 100000],
             cache |-> [set |-> SetOfArr(x.cset, IF x.rvSame THEN 1 ELSE 0), pods |-> PodsOfArr(x.cpods), pvcs |-> AsSet(x.cpvcs), queued |-> x.queued]]
 
 \* what is compared: everything but the absolute resourceVersion, creation stamps and name ranks
@@ -42,7 +47,7 @@ ViewS(s) == [set |-> [s.api.set EXCEPT !.rv = 0], pods |-> NoUid(s.api.pods),
              uidSame |-> [o \in Ords |-> s.cache.pods[o].present => (s.api.pods[o].present /\ s.api.pods[o].uid = s.cache.pods[o].uid)],
              revs |-> {<<s.api.revs[k].name, s.api.revs[k].tmpl, s.api.revs[k].num, s.api.revs[k].owner>> : k \in 1..Len(s.api.revs)},
              cset |-> [s.cache.set EXCEPT !.rv = 0], cpods |-> NoUid(s.cache.pods), rvSame |-> s.api.set.rv = s.cache.set.rv,
-             pvcs |-> s.api.pvcs, cpvcs |-> s.cache.pvcs, queued |-> s.cache.queued]
+             pvcs |-> s.api.pvcs, cpvcs |-> s.cache.pvcs, queued |-> s.cache.queued, owed |-> s.api.owed]
 
 ActOf(a) == IF a.act = "SetSlots" THEN [a EXCEPT !.slots = AsSet(a.slots)] ELSE a
 \* a reconcile step is judged with the fault positions as recorded with the reconcile (canonical call order)
@@ -98,8 +103,7 @@ B_C16 == /\ (ConvergedS(Final) \/ StuckS(Final))
          /\ \A k \in 2..Len(Steps) : (Steps[k].enabled /\ Steps[k].act.act = "SyncSetCache" /\ Before(k).cache.set # Before(k).api.set)
                                           => After(k).cache.queued
          /\ \A k \in 2..Len(Steps) : (Steps[k].enabled /\ Steps[k].act.act = "SyncPodCache")
-                                          => After(k).cache.queued = (Before(k).cache.queued
-                                                \/ \E o \in Ords : PodEventEnq(Before(k).cache.pods[o], Before(k).api.pods[o]))
+                                          => After(k).cache.queued = (Before(k).cache.queued \/ Before(k).api.owed)
 
 \* C06 (history clause): no step of the behaviour (reconciles, scale-in, scale-out, restarts) removes or replaces a claim -
 \* the claim objects (name and uid) only ever grow; a pod created by a reconcile finds its claim in place
